@@ -185,8 +185,10 @@ fn collect_metrics(repo: &Path, cfg: &AnalyzeConfig) -> io::Result<RepositoryMet
         let line_buf = String::from_utf8_lossy(&raw_line);
         let line = line_buf.trim_end();
         let mut parts = line.splitn(2, ' ');
-        if let (Some(oid), Some(path)) = (parts.next(), parts.next()) {
-            if blob_oids.contains(oid) && !path.is_empty() {
+        if let Some(oid) = parts.next() {
+            // A blob that a tag points at directly is listed without a path: it is reachable all the same.
+            let path = parts.next().unwrap_or("");
+            if blob_oids.contains(oid) {
                 blob_path_map.insert(oid.to_string(), path.to_string());
             }
         }
@@ -209,12 +211,11 @@ fn collect_metrics(repo: &Path, cfg: &AnalyzeConfig) -> io::Result<RepositoryMet
 
     // Convert path map (oid -> path) to blob_paths structure (oid -> Vec<path>)
     for (oid, path) in blob_path_map {
-        stats
-            .blob_paths
-            .entry(oid.clone())
-            .or_default()
-            .push(path.clone());
-        stats.all_names.insert(path);
+        let paths = stats.blob_paths.entry(oid.clone()).or_default();
+        if !path.is_empty() {
+            paths.push(path.clone());
+            stats.all_names.insert(path);
+        }
     }
 
     // Quick repository stats
